@@ -28,6 +28,11 @@ CHECKS = {
    text="Generated selects (1-4 sources: awaits, type-only receives, pure filter receives, timeouts; helpers that send unique messages then finish or fail) run on the real workers/environment with quantum 1 on the selecting process's worker and random virtual-clock ticks; at the step where the select completes, the state known to the process is fed to a small model that returns the outcomes the statement allows (written-order priority, earliest acceptable message, timeout not before its duration, failure propagation at the failed source's position); afterwards 'later receives ++ mailbox' must equal the observed arrival order minus the taken message, and every completion fact the environment consumed must have been forwarded.",
    design="§3 C05",
    note="Filters are pure by construction; timeout readiness is two-sided tolerant at elapsed == d. The worker-layer oracle needs quantum 1 on worker 0, which all C05 schedules use."),
+ "C14": dict(
+   technique="runtime monitoring: offline checker over the environment's consumed-event log beside a mock EffectBackend's call log (ownership model, exactly-once close)",
+   text="Generated resource scenarios (real quiver_io file builtins, mock backend that logs every execute/close_resource) with handles moved by message, tuple, spawn argument, capture and captured closure, then used/closed/forwarded/held/left in a mailbox by awaited and un-awaited owners, under chosen interleavings incl. deferred effect completions; an ownership model driven by the environment's event consumption order decides for every effect request whether it must or must not reach the backend, that offenders fail, that completion reports close exactly the reported process's open resources once, and that no terminated owner keeps an open resource at quiescence. Two defect classes are recorded as known findings (resources of un-awaited owners / of already-reported dead recipients are never closed).",
+   design="§3 C14",
+   note="Operations on already closed resources are counted, not judged. The io_uring native backend itself is not exercised (mock backend)."),
 }
 
 NOT_BUILT = "check not built yet in this round (work in progress; see DESIGN.md §6 build order)"
